@@ -125,6 +125,10 @@ class CoopRLock:
         if self.owner == me:           # re-entrant: not a new critical section
             self.count += 1
             return True
+        if YIELD_LOCKS and self.name not in YIELD_LOCKS and self.owner is None:
+            self.owner = me            # not a yield point in this run (only one thread runs at a time)
+            self.count += 1
+            return True
         while True:
             if self.owner not in (None, me):
                 s.blocked[me] = self
@@ -231,6 +235,7 @@ class TSet(set):
 
 _installed: Dict[str, Any] = {}
 LOCKS: List[str] = []
+YIELD_LOCKS: set = set()      # if non-empty: only these locks are yield points
 
 
 def install_traced_registries() -> List[str]:
